@@ -434,10 +434,19 @@ pub fn patch(
     let color_channels = base_grid.color_channels();
     assert_eq!(patch_ref_grid.color_channels(), color_channels);
     for target in &patch_ref.patch_targets {
-        for (idx, blending_info) in std::iter::repeat_n(&target.blending[0], color_channels)
-            .chain(&target.blending[1..])
-            .enumerate()
-        {
+        // Every channel is blended with the alpha the canvas had before this patch. Channels are
+        // updated in place, so channels that serve as alpha for other channels go last.
+        let is_alpha_source = |idx: usize| {
+            target.blending.iter().any(|info| {
+                info.mode.use_alpha() && info.alpha_channel as usize + color_channels == idx
+            })
+        };
+        let (alpha_sources, others): (Vec<_>, Vec<_>) =
+            std::iter::repeat_n(&target.blending[0], color_channels)
+                .chain(&target.blending[1..])
+                .enumerate()
+                .partition(|&(idx, _)| is_alpha_source(idx));
+        for (idx, blending_info) in others.into_iter().chain(alpha_sources) {
             let base_grid_region = base_grid.regions_and_shifts()[idx].0;
             let ref_grid_region = patch_ref_grid.regions_and_shifts()[idx].0;
 
